@@ -90,6 +90,9 @@ fn gen(rng: &mut Rng, idx: u64, _tier: Tier) -> Case {
     let n = rng.range(4, 36) as usize;
     let kinds = [Kind::Df11, Kind::Ident, Kind::AirPos, Kind::AirPos, Kind::Vel12, Kind::Df4, Kind::Df5, Kind::Df0, Kind::SurfPos, Kind::Tc31, Kind::Df18, Kind::Df20(gen::Reg::B20), Kind::Df21(gen::Reg::B50), Kind::Gnss];
     let mut lines: Vec<(i64, Vec<u8>, String)> = vec![];
+    // the ground station's interrogator code: the same in every DF11 reply of a run (half of the runs), and
+    // one of the error patterns damages a squitter by exactly that code
+    let station_iid: Option<u32> = if rng.chance(0.5) { Some(if rng.chance(0.3) { 1 << rng.below(7) } else { rng.range(1, 127) as u32 }) } else { None };
     // corrupted frames at chosen history points
     let n_bad = rng.range(1, 4) as usize;
     let mut bad_at: Vec<usize> = (0..n_bad).map(|_| match rng.below(5) { 0 => 0, 1 => 1, 2 => 11.min(n), 3 => 12.min(n), _ => rng.below(n as u64 + 1) as usize }).collect();
@@ -121,7 +124,7 @@ fn gen(rng: &mut Rng, idx: u64, _tier: Tier) -> Case {
                 // it were an address/parity format - or with a small number
                 let n = f.len();
                 let pi = ((f[n - 3] as u32) << 16) | ((f[n - 2] as u32) << 8) | f[n - 1] as u32;
-                let ov = match rng.below(7) { 0 => modes::get_bits(&f, 9, 32) as u32, 1 => acs[rng.below(acs.len() as u64) as usize].icao, 2 => 0x80 << rng.below(17), 3 => if pi != 0 { pi } else { 0xFFFFFF }, 4 => pi ^ 0xFFFFFF, 5 => pi ^ (modes::get_bits(&f, 9, 32) as u32), _ => rng.range(128, 4000) as u32 };
+                let ov = match rng.below(if station_iid.is_some() { 9 } else { 7 }) { 7 | 8 => station_iid.unwrap_or(1), 0 => modes::get_bits(&f, 9, 32) as u32, 1 => acs[rng.below(acs.len() as u64) as usize].icao, 2 => 0x80 << rng.below(17), 3 => if pi != 0 { pi } else { 0xFFFFFF }, 4 => pi ^ 0xFFFFFF, 5 => pi ^ (modes::get_bits(&f, 9, 32) as u32), _ => rng.range(128, 4000) as u32 };
                 f[n - 3] ^= (ov >> 16) as u8; f[n - 2] ^= (ov >> 8) as u8; f[n - 1] ^= ov as u8;
                 "bitflip-overlay"
             } else { class };
@@ -136,7 +139,8 @@ fn gen(rng: &mut Rng, idx: u64, _tier: Tier) -> Case {
         }
         let a = rng.below(acs.len() as u64) as usize;
         let k = *rng.pick(&kinds);
-        let f = gen::frame(rng, &mut acs[a], k, false);
+        let mut f = gen::frame(rng, &mut acs[a], k, false);
+        if let (Kind::Df11, Some(iid)) = (k, station_iid) { f = modes::df11(acs[a].icao, acs[a].ca, iid); }
         // DF11 with a non-zero interrogator code is still a valid squitter
         lines.push((gen::gap_us(rng, d).min(12_000_000), gen::line_of(rng, &f, false), format!("{:?}", k).to_lowercase()));
     }
